@@ -1140,7 +1140,9 @@ func funMin(nums ...*decimal.Big) (*decimal.Big, error) {
 }
 
 func funRound(v *decimal.Big) (*decimal.Big, error) {
-	return newDecimalBig().Round(0), nil
+	ctx := decimal.Context128
+	ctx.RoundingMode = decimal.ToNearestAway
+	return ctx.RoundToInt(newDecimalBig().Copy(v)), nil
 }
 
 func funRoundBank(v *decimal.Big) (*decimal.Big, error) {
